@@ -36,6 +36,7 @@ NewLines == {L \in 1..NRec : Rec[L].k \in {"newt", "newq", "newb"}}
 NewTLines == {L \in NewLines : Rec[L].k = "newt"}
 \* the tails of the "big" bit structures, flattened once (constant level)
 BigLines == {L \in 1..NRec : Rec[L].k = "newbig"}
+BigQLines == {L \in 1..NRec : Rec[L].k = "newbigq"}
 
 PosToInt(s) == IF s[1] = 1 THEN -1 ELSE IF SymSmall(s) THEN SymToInt(s) ELSE 1073741824
 RawPositions(e) == [t \in 1..Len(e.pos) |-> PosToInt(e.pos[t])]
@@ -722,6 +723,55 @@ QBig ==
                     ELSE Advance(Res(SX!SetToSeq({Mis(e, o, pre \o tg, 0, First(tg), e.out[First(tg)], cl(First(tg)).exp) : tg \in btags}),
                                      Cardinality(bad), Len(e.rel), tags), objs)
 
+\* long quad structures (C01, C05, C13): base copies of one symbol, then a tail
+BigQVal == [L \in BigQLines |->
+              LET F == Flat(Rec[L].segs)
+                  T == [q \in 1..Len(F) |-> SymMod4(Rec[L].alpha[F[q]])]
+              IN  [T |-> T, P |-> [sy \in 0..3 |-> Positions(T, sy)]]]
+NewBigQ ==
+    /\ IsEv("newbigq")
+    /\ LET e == Ev
+           tag == "BIGQ." \o e.kind \o ".new"
+       IN  IF ~(e.base >= 0 /\ e.base < 1073741824 /\ e.f \in 0..3) THEN ToolErr(e, "malformed long quad structure") /\ Advance(ResOk(0, {}), objs)
+           ELSE IF e.out = 0 THEN Advance(ResOk(1, {tag}), Put(e.o, Obj("BIGQ", e.kind, "", 0, <<l>>, FALSE)))
+           ELSE IF e.out = NA THEN ToolErr(e, "constructor not available") /\ Advance(ResOk(0, {}), objs)
+           ELSE IF e.out = -9 THEN Advance(ResOk(0, {"BIGQ.skipped_low_memory"}), objs)
+           ELSE Advance(ResBad(Mis(e, NoObj, tag, 0, 0, e.out, {0}), {tag}), objs)
+
+QBigQ ==
+    /\ IsEv("qbigq")
+    /\ LET e == Ev
+       IN  IF ~Live(e.o) \/ objs[e.o].fam # "BIGQ" THEN Advance(ResOk(0, {}), objs)
+           ELSE LET o == objs[e.o]
+                    d == Rec[BigLineOf(o)]
+                    base == d.base
+                    f == d.f
+                    bv == BigQVal[BigLineOf(o)]
+                    T == bv.T
+                    sy == e.c
+                    Ps == IF sy <= 3 THEN bv.P[sy] ELSE << >>
+                    tree == o.kind \notin {"QV", "RSQ256", "RSQ512"}
+                    \* on a tree only symbols that occur are asked (its clauses for absent symbols differ)
+                    occurs == sy <= 3 /\ (sy = f \/ Len(Ps) > 0)
+                    pre == "BIGQ." \o o.kind \o "."
+                    K == 1..Len(e.rel)
+                    relform == e.form = "rel"
+                    argok == \A j \in K : e.args[j] = (IF relform THEN base + e.rel[j] ELSE e.rel[j])
+                    cl(j) == LET r == e.rel[j]
+                             IN  IF e.m = "get" THEN BigQGet(f, T, r)
+                                 ELSE IF e.m = "rank" THEN BigQRank(sy, f, base, T, Ps, r)
+                                 ELSE IF e.m = "select" THEN BigQSelect(sy, f, base, Ps, IF relform THEN base + r ELSE r)
+                                 ELSE IF e.m = "occs" THEN BigQOccs(sy, f, base, Ps)
+                                 ELSE BigQOccsSmaller(sy, f, base, T)
+                    bad == {j \in K : e.out[j] \notin cl(j).exp}
+                    tags == {pre \o cl(j).tag : j \in K}
+                    First(tg) == CHOOSE j \in bad : cl(j).tag = tg /\ \A jj \in bad : cl(jj).tag = tg => j <= jj
+                    btags == {cl(j).tag : j \in bad}
+                IN  IF Len(e.out) # Len(e.rel) \/ ~argok \/ (tree /\ e.m # "get" /\ ~occurs)
+                    THEN ToolErr(e, "long quad query outside what the generator may ask") /\ Advance(ResOk(0, {}), objs)
+                    ELSE Advance(Res(SX!SetToSeq({Mis(e, o, pre \o tg, 0, First(tg), e.out[First(tg)], cl(First(tg)).exp) : tg \in btags}),
+                                     Cardinality(bad), Len(e.rel), tags), objs)
+
 \* position iterators started at base + rel: the positions of the bit, in increasing order
 IthBig ==
     /\ IsEv("ithbig")
@@ -827,7 +877,7 @@ Other ==
     /\ l <= NRec
     /\ Rec[l].k \notin {"reset", "newt", "newq", "newb", "meta", "qg", "relm", "relo", "uq", "mut",
                         "conv", "drop", "eq", "ith", "thr", "pure", "crash", "xb", "space", "util", "spstd",
-                        "newbig", "qbig", "metabig", "ithbig", "tu"}
+                        "newbig", "qbig", "metabig", "ithbig", "newbigq", "qbigq", "tu"}
     /\ Advance(ResOk(0, {}), objs)
 
 Finish ==
@@ -839,7 +889,7 @@ Finish ==
 Init == /\ l = 1 /\ objs = << >> /\ nbad = 0 /\ ncell = 0 /\ cov = {} /\ done = FALSE
 
 Next == \/ Reset \/ NewObj \/ Meta \/ QGrid \/ RelM \/ RelO \/ Uq \/ Mut \/ Conv \/ Drop
-        \/ EqEv \/ Ith \/ Thr \/ Pure \/ Crash \/ XB \/ SpaceEv \/ SpaceStdEv \/ UtilEv \/ TuEv \/ NewBig \/ QBig \/ MetaBig \/ IthBig \/ Other \/ Finish
+        \/ EqEv \/ Ith \/ Thr \/ Pure \/ Crash \/ XB \/ SpaceEv \/ SpaceStdEv \/ UtilEv \/ TuEv \/ NewBig \/ QBig \/ MetaBig \/ IthBig \/ NewBigQ \/ QBigQ \/ Other \/ Finish
 
 Spec == Init /\ [][Next]_vars
 
